@@ -235,13 +235,48 @@ pub fn run(args: &Args) -> Out {
     out.extra.insert("reads_with_lock_held".into(), serde_json::json!(r.locked));
     out.extra.insert("reads_forced_to_private_handle".into(), serde_json::json!(r.forced_private));
     if args.mode != "replay" {
-        let (threads, reads) = if thorough { (32, 4000) } else { (16, 600) };
-        let f1 = format!("{dir}/stress_file.agdb");
-        let f2 = format!("{dir}/stress_mmap.agdb");
-        for f in [&f1, &f2] { let _ = std::fs::remove_file(f); }
-        if let Ok(db) = DbFile::new(&f1) { stress(&mut out, db, "DbFile", threads, reads, args.seed); }
-        if let Ok(db) = Db::new(&f2) { stress(&mut out, db, "Db", threads, reads, args.seed + 1); }
+        // The stress phase runs in a child process: with a broken read path the database code may read
+        // garbage and abort the whole process (huge allocation), which must be reported, not suffered.
+        let exe = std::env::current_exe().unwrap();
+        let child = std::process::Command::new(exe)
+            .args(["stress", "--prop", "C23", "--seed", &args.seed.to_string(), "--tier", &args.tier, "--out", &format!("{}/stress", args.out)])
+            .output();
+        match child {
+            Ok(o) => {
+                let sdir = format!("{}/stress", args.out);
+                for l in read_op_file(&format!("{sdir}/oracle.jsonl")) {
+                    if let Ok(v) = serde_json::from_str::<serde_json::Value>(&l) { out.oracle.push(v); }
+                }
+                if let Ok(st) = std::fs::read_to_string(format!("{sdir}/stats.json")) {
+                    if let Ok(v) = serde_json::from_str::<serde_json::Value>(&st) {
+                        for k in ["stress_DbFile", "stress_Db"] { if let Some(x) = v.get(k) { out.extra.insert(k.to_string(), x.clone()); } }
+                    }
+                }
+                if !o.status.success() {
+                    let err = String::from_utf8_lossy(&o.stderr);
+                    out.violation("C23/concurrent-read-crashed/FileStorage::read", "concurrent read queries on a shared file-backed database must not crash the process", "all reader threads finish".into(), format!("stress child exited {:?}: {}", o.status.code(), err.chars().take(300).collect::<String>()));
+                }
+                let _ = std::fs::remove_dir_all(&sdir);
+            }
+            Err(e) => out.violation("C23/stress-not-run/harness", "stress child must start", "started".into(), e.to_string()),
+        }
         let _ = std::fs::remove_dir_all(&dir);
     }
+    out
+}
+
+/// child-process entry: the multi-threaded stress phase only
+pub fn run_stress(args: &Args) -> Out {
+    let mut out = Out::new("stress");
+    let thorough = args.tier == "thorough";
+    let dir = format!("{}/files", args.out);
+    std::fs::create_dir_all(&dir).unwrap();
+    let (threads, reads) = if thorough { (32, 4000) } else { (16, 600) };
+    let f1 = format!("{dir}/stress_file.agdb");
+    let f2 = format!("{dir}/stress_mmap.agdb");
+    for f in [&f1, &f2] { let _ = std::fs::remove_file(f); }
+    if let Ok(db) = DbFile::new(&f1) { stress(&mut out, db, "DbFile", threads, reads, args.seed); }
+    if let Ok(db) = Db::new(&f2) { stress(&mut out, db, "Db", threads, reads, args.seed + 1); }
+    let _ = std::fs::remove_dir_all(&dir);
     out
 }
